@@ -117,6 +117,7 @@ def run(tier):
     # ---- prefix priority (vectors from Components!PrioVectors) and recursion families
     types(C, r.tags["TYPES"][0])
     extra(C, r.tags.get("PRIO", []))
+    bodies(C)
     k = len(meta) // 2
     C.sample({"definition": definition(vecs[meta[k][0]]["sig"])[:120], "call": vecs[meta[k][0]]["call"], "form": meta[k][1], "expected": meta[k][2]})
     C.assumptions += ["type-checking of a declared default against its declared type is not demanded", "which refusal is reported when several apply is not demanded",
@@ -161,6 +162,48 @@ def types(C, tab):
             if bool(x.get("ok")) != want:
                 C.violation(dict(key, form=form), "component c(%s) called (%s) with a %s value: engine %s, the type %s it" % (
                     sigtxt, form, kind, "accepts" if x.get("ok") else "refuses (%s)" % (x.get("msg") or x.get("disp", ""))[:90], "accepts" if want else "refuses"), {"job": job})
+
+
+def bodies(C):
+    """MC_Body: what a call body contains x where the component prints it x escaping modes of caller and component"""
+    r = vp.tlc("MC_Body", "MC_Body", workers=4, timeout=600, name="c05-body")
+    C.add_tlc(r, "MC_Body")
+    PSRC = {"text": "<b>T&</b>", "data": "{{ d }}", "safe": "{{ d | safe }}", "cond": "{% if 1 %}<i>{% endif %}",
+            "loop": "{% for x in ['<', '>'] %}{{ x }}<u>{% endfor %}", "call": "{{<inn v={d} />}}"}
+    WDEF = {"direct": "[{{ body }}]", "include-html": "[{% include 'part.html' %}]", "include-txt": "[{% include 'part.txt' %}]",
+            "forward": "{% <inner> %}{{ body }}{% </inner> %}", "set": "{% set b2 = body %}[{{ b2 }}]", "twice": "[{{ body }}|{{ body }}]"}
+    jobs, meta = [], []
+    for v in r.tags["VEC"]:
+        csfx = ".html" if v["callerAE"] else ".txt"
+        wsfx = ".html" if v["compAE"] else ".txt"
+        bsrc = "".join(PSRC[p] for p in v["body"])
+        call = "{% <w" + (' a="1"' if v["attrs"] else "") + "> %}" + bsrc + "{% </w> %}"
+        tpls = [["w" + wsfx, "{% component w(a=\"x\") %}" + WDEF[v["via"]] + "{% endcomponent w %}{% component inner() %}[{{ body }}]{% endcomponent inner %}"],
+                ["inn" + csfx, "{% component inn(v) %}(in:{{ v }}){% endcomponent inn %}"],
+                ["part.html", "{{ body }}"], ["part.txt", "{{ body }}"], ["t" + csfx, call],
+                # the same call from a block of a child, from an included template and from inside another component's body
+                ["base" + csfx, "{% block k %}{% endblock %}"], ["child" + csfx, "{% extends 'base" + csfx + "' %}{% block k %}" + call + "{% endblock %}"],
+                ["host" + csfx, "{% include 't" + csfx + "' %}"]]
+        steps = [{"op": "add", "tpls": tpls}] + [{"op": "render", "name": n + csfx} for n in ("t", "child", "host")] + \
+                [{"op": "render_str", "src": call, "auto": v["callerAE"]}]
+        jobs.append({"cfg": {"autoescape": [".html"]}, "ctx": {"d": "<d>&\"'"}, "steps": steps})
+        meta.append(v)
+    res = vp.run_jobs(jobs, tag="c05-body", timeout=1200)
+    for v, rr, job in zip(meta, res, jobs):
+        key = {"kind": "body", "body": v["body"], "via": v["via"], "attrs": v["attrs"], "callerAE": v["callerAE"], "compAE": v["compAE"]}
+        C.nontrivial(["body", v["body"], v["via"], v["attrs"], v["callerAE"], v["compAE"]])
+        if any(y.get("panic") or y.get("abort") for y in rr):
+            C.violation(dict(key, kind="body-panic"), "panic: %s" % key, {"job": job, "result": rr})
+            continue
+        if not rr[0].get("ok"):
+            C.violation(dict(key, kind="body-rejected"), "templates refused: %s" % (rr[0].get("msg") or rr[0].get("disp", ""))[:200], {"job": job})
+            continue
+        for site, x in zip(("template", "block of a child", "included template", "render_str"), rr[1:]):
+            C.count()
+            if not x.get("ok") or x.get("out") != v["out"]:
+                C.violation(dict(key, site=site), "call body %s printed by the component (%s; caller %s, component %s; call from %s): engine %s, statement %r" % (
+                    v["body"], v["via"], "autoescaped" if v["callerAE"] else "not autoescaped", "autoescaped" if v["compAE"] else "not autoescaped", site,
+                    repr(x.get("out")) if x.get("ok") else "error: " + (x.get("msg") or x.get("disp", ""))[:150], v["out"]), {"job": job, "expected": v["out"], "got": x})
 
 
 def extra(C, prio):
